@@ -30,9 +30,14 @@ package v2
 //@     && a.StartsAt == (s0 != 0 ? s0 : (e0 != 0 ? e0 : now))
 //@     && a.EndsAt == (e0 != 0 ? e0 : now + rt)
 //@     && a.Timeout == (t0 || e0 == 0)
+//@ uf validAlert(*alert.Alert) bool
 //@ func (*API).postAlertsHandler
 //@   props C13
 //@   nosafe
+//@   after call Alert).Validate assume (res0 == nil) == validAlert(ret("OpenAPIAlertsToAlerts")[rangeindex2 + 1])
+//@   at call removeEmptyLabels assert [empty-labels-of-each-alert] arg0 == ret("OpenAPIAlertsToAlerts")[rangeindex2 + 1].Labels
+//@   at call Alert).Validate assert [empty-labels-removed-before-validation] count("removeEmptyLabels") == count("Alert).Validate") + 1
+//@   at call provider.Alerts).Put assert [every-valid-alert-is-put] count("Alert).Validate") == len(ret("OpenAPIAlertsToAlerts")) && (forall k int :: 0 <= k && k < len(ret("OpenAPIAlertsToAlerts")) && validAlert(ret("OpenAPIAlertsToAlerts")[k]) ==> ret("OpenAPIAlertsToAlerts")[k] in elems(arg2))
 //@   requires api != nil && api.alertmanagerConfig != nil && api.alertmanagerConfig.Global != nil && api.alertmanagerConfig.Global.ResolveTimeout >= 0
 //@   after call Tracer).Start assume res0 != nil && res1 != nil
 //@   after call NewPostAlertsOK assume res0 != nil
@@ -46,6 +51,8 @@ package v2
 //@   loop 1 invariant forall i int, j int :: 0 <= i && i < j && j < len(alerts) ==> alerts[i] != alerts[j]
 //@   loop 2 invariant called("time.Now") && first("time.Now") == now
 //@   loop 2 invariant rangeindex < len(alerts) && fresh(validAlerts) && base(validAlerts) != base(alerts)
+//@   loop 2 invariant count("Alert).Validate") == rangeindex + 1 && count("removeEmptyLabels") == rangeindex + 1
+//@   loop 2 invariant forall k int :: 0 <= k && k <= rangeindex && validAlert(alerts[k]) ==> alerts[k] in elems(validAlerts)
 //@   loop 2 invariant forall i int :: 0 <= i && i < len(validAlerts) ==> (exists j int :: 0 <= j && j < len(alerts) && validAlerts[i] == alerts[j])
 //@   loop 2 invariant forall k int :: 0 <= k && k < len(alerts) ==> alerts[k] != nil && alerts[k].UpdatedAt == now && alerts[k].StartsAt != 0 && alerts[k].EndsAt != 0
 //@   noeffect requestLogger Alert).Validate removeEmptyLabels provider.Alerts).Put Firing Resolved Invalid WithEventRecording
@@ -58,6 +65,13 @@ package v2
 //@   after call Tracer).Start assume res0 != nil && res1 != nil
 //@   ensures [expired-hidden] a.EndsAt != 0 && a.EndsAt < now ==> !result
 //@   ensures [hidden-only-for-a-reason] !result ==> (a.EndsAt != 0 && a.EndsAt < now) || (called("alertMatchesFilterLabels") && !ret("alertMatchesFilterLabels")) || called("AlertMarker).Status")
+//@   ensures [label-filter] called("alertMatchesFilterLabels") && !ret("alertMatchesFilterLabels") ==> !result
+//@   ensures [status-filter] called("AlertMarker).Status") ==> result == ((deref(active) || status.State != alert.AlertStateActive) && (deref(silenced) || len(status.SilencedBy) == 0) && (deref(inhibited) || len(status.InhibitedBy) == 0))
+//@   ensures [shown-if-nothing-hides-it] !(a.EndsAt != 0 && a.EndsAt < now) ==> called("alertMatchesFilterLabels") && (ret("alertMatchesFilterLabels") ==> called("AlertMarker).Status"))
+//@   at call AlertMarker).Status assert [status-of-this-alert] arg1 == fpL(a.Labels) && called("dynamic:freevar:setAlertStatus")
+//@   at call dynamic:freevar:setAlertStatus assert [verdict-for-this-alert] arg1 == a.Labels && called("marker.WithContext") && arg0 == ret("marker.WithContext")
+//@   at call marker.WithContext assert [marker-that-is-read-afterwards] arg1 == predict && (deref(m) != nil ? predict == deref(m) : called("marker.NewAlertMarker"))
+//@   at call AlertMarker).Status assert [read-the-same-marker] arg0 == predict
 //@   ensures [status-consulted-only-if-visible] called("AlertMarker).Status") ==> !(a.EndsAt != 0 && a.EndsAt < now) && ret("alertMatchesFilterLabels")
 //@   noeffect alertMatchesFilterLabels setAlertStatus AlertMarker).Status NewAlertMarker WithContext
 
@@ -70,6 +84,11 @@ package v2
 //@   after call PostableSilenceToProto assume (res1 == nil) ==> res0 != nil
 //@   at call Silences).Set assert [well-formed-range] tsT(arg2.StartsAt) < tsT(arg2.EndsAt)
 //@   at call Silences).Set assert [not-ending-in-the-past] tsT(arg2.EndsAt) >= ret("time.Now")
+//@   at call Silences).Set assert [the-converted-silence] arg2 == ret("PostableSilenceToProto") && ret1("PostableSilenceToProto") == nil
+//@   ensures [ok-only-after-a-successful-set] called("NewPostSilencesOK") ==> called("Silences).Set") && ret("Silences).Set") == nil
+//@   ensures [set-error-is-reported] called("Silences).Set") && ret("Silences).Set") != nil ==> !called("NewPostSilencesOK") && (called("NewPostSilencesNotFound") || called("NewPostSilencesBadRequest"))
+//@   ensures [unknown-id-is-404] called("NewPostSilencesNotFound") ==> called("errors.Is") && ret("errors.Is")
+//@   ensures [accepted-silence-is-set] ret1("PostableSilenceToProto") == nil && !called("NewPostSilencesBadRequest") ==> called("Silences).Set")
 //@   noeffect requestLogger PostableSilenceToProto Silences).Set WithEventRecording
 
 // ---- C16: the API's label filter re-implements the missing-label cases instead of calling Matchers.Matches.
